@@ -74,6 +74,9 @@ impl io::Write for SharedWriter {
     fn write(&mut self, buf: &[u8]) -> io::Result<usize> {
         self.0.borrow_mut().write(buf)
     }
+    fn write_vectored(&mut self, bufs: &[io::IoSlice<'_>]) -> io::Result<usize> {
+        self.0.borrow_mut().write_vectored(bufs)
+    }
     fn flush(&mut self) -> io::Result<()> {
         self.0.borrow_mut().flush()
     }
@@ -475,6 +478,15 @@ fn check_display(case: &SinkCase, mon: &mut Mon, ctx: &str) {
 }
 
 /// M17.4: printer output is well-formed UTF-8 and the same bytes everywhere.
+/// The case shape under which M17.4 is recorded and replayed.
+pub fn printer_side_case(popts: u32, values: Vec<V>) -> SinkCase {
+    SinkCase { popts, values, entry: Entry::ToWriterCustom, plan: WritePlan::benign(), fmt: None }
+}
+
+fn is_printer_side_case(c: &SinkCase) -> bool {
+    c.entry == Entry::ToWriterCustom && c.plan == WritePlan::benign() && c.fmt.is_none()
+}
+
 pub fn check_printer_side(case: &SinkCase, mon: &mut Mon, ctx: &str) {
     let popts = opts::print_options(case.popts);
     for v in &case.values {
@@ -509,6 +521,11 @@ pub fn check_sink_case(case: &SinkCase, mon: &mut Mon) {
         case.plan
     );
     mon.evaluations += 1;
+    // M17.4 (printer-side well-formedness) belongs to the plain in-memory case;
+    // running it here makes a replay of such a case re-check it
+    if is_printer_side_case(case) {
+        check_printer_side(case, mon, &ctx);
+    }
     match &case.entry {
         Entry::Display => check_display(case, mon, &ctx),
         Entry::History { custom, ops } => check_history(case, *custom, ops, mon, &ctx),
@@ -545,6 +562,9 @@ pub fn check_sink_case(case: &SinkCase, mon: &mut Mon) {
 pub fn candidates(c: &SinkCase) -> Vec<SinkCase> {
     let mut out = Vec::new();
     // plan first
+    if c.plan.vectored {
+        out.push(SinkCase { plan: WritePlan { vectored: false, ..c.plan.clone() }, ..c.clone() });
+    }
     if c.plan.adapter != WriteAdapter::Direct {
         out.push(SinkCase { plan: WritePlan { adapter: WriteAdapter::Direct, ..c.plan.clone() }, ..c.clone() });
     }
@@ -646,7 +666,7 @@ fn draw_write_base(rng: &mut Rng) -> WritePlan {
         6..=7 => WriteAdapter::DynRef,
         _ => WriteAdapter::BufWriter { cap: rng.urange(1, 24) },
     };
-    WritePlan { adapter, accepts: vec![], interrupts: Interrupts::None, faults: vec![] }
+    WritePlan { vectored: rng.coin(), adapter, accepts: vec![], interrupts: Interrupts::None, faults: vec![] }
 }
 
 pub fn c07_run(seed: u64, i: u64, mon: &mut Mon, found: &mut Vec<Found>) {
@@ -683,13 +703,7 @@ pub fn c07_run(seed: u64, i: u64, mon: &mut Mon, found: &mut Vec<Found>) {
         if i < 2 {
             mon.samples_push(|| serde_json::json!({"run": i, "engine": "E-SINK", "case": base}));
         }
-        {
-            let before = mon.violations.len();
-            check_printer_side(&base, mon, "history values");
-            for v in mon.violations[before..].to_vec() {
-                found.push(Found { violation: v, case: AnyCase::Sink(base.clone()) });
-            }
-        }
+        run_case(printer_side_case(popts, base.values.clone()), mon, found);
         run_case(base.clone(), mon, found);
         // total expected output length decides the fault offsets
         let total: usize = {
@@ -704,6 +718,7 @@ pub fn c07_run(seed: u64, i: u64, mon: &mut Mon, found: &mut Vec<Found>) {
         };
         for round in 0..6u64 {
             let mut plan = WritePlan {
+                vectored: rng.coin(),
                 adapter: if rng.coin() { WriteAdapter::Direct } else { WriteAdapter::DynRef },
                 accepts: (0..rng.urange(1, 4)).map(|_| rng.urange(1, 7) as u16).collect(),
                 interrupts: if rng.chance(1, 3) { Interrupts::At(vec![rng.below(8) as u32, rng.below(20) as u32]) } else { Interrupts::None },
@@ -732,13 +747,7 @@ pub fn c07_run(seed: u64, i: u64, mon: &mut Mon, found: &mut Vec<Found>) {
     if i < 2 {
         mon.samples_push(|| serde_json::json!({"run": i, "engine": "E-SINK", "case": base, "sweep": "accept<=k for k=1..24, hard error and zero-accept at every output offset, Interrupted schedules"}));
     }
-    {
-        let before = mon.violations.len();
-        check_printer_side(&base, mon, "value");
-        for v in mon.violations[before..].to_vec() {
-            found.push(Found { violation: v, case: AnyCase::Sink(base.clone()) });
-        }
-    }
+    run_case(printer_side_case(popts, base.values.clone()), mon, found);
     let value0 = base.values[0].to_value();
     let t = reference(&value0, entry.default_formatter(), opts::print_options(popts));
     let len = t.len();
